@@ -301,6 +301,13 @@ type World struct {
 	planned bool          // set while a Redefine is in progress (C09)
 	inPlan  []int         // events logged while planned (must stay empty)
 	t0      time.Time
+	// zeroOrigin, when set, is the supplied value that legitimately carries
+	// id 0 (a caller may supply the zero value of a type). Without it id 0
+	// means "fabricated".
+	zeroOrigin *Origin
+	// NextDefaults, when non-nil, is passed as is (same backing array) as the
+	// default options of the next function built.
+	NextDefaults []am.Arg
 	// Delay, when set (before any goroutine uses the world), is called at
 	// body entry to widen the window between entry and exit.
 	Delay func(fi int)
@@ -337,7 +344,18 @@ func (w *World) FreshInput(call, idx int, l Label) int64 {
 func (w *World) Origin(id int64) *Origin {
 	w.mu.Lock()
 	defer w.mu.Unlock()
+	if id == 0 {
+		return w.zeroOrigin
+	}
 	return w.origin[id]
+}
+
+// SetZeroInput declares that input idx (label l) is supplied as the zero
+// value of its type, i.e. with id 0.
+func (w *World) SetZeroInput(idx int, l Label) {
+	w.mu.Lock()
+	w.zeroOrigin = &Origin{Kind: OInput, Call: -1, Func: idx, Label: l, Seq: -1}
+	w.mu.Unlock()
 }
 
 func (w *World) NumEvents() int {
@@ -491,11 +509,19 @@ func (w *World) Build(fi int, spec FuncSpec, r *rand.Rand, extra ...am.Arg) (*Bu
 	for i, l := range spec.Out {
 		concs[i] = concreteFor(l.Type, r)
 	}
-	var opts []am.Arg
+	// default options are handed to NewFunc as a slice with spare capacity:
+	// the library must never write into it
+	opts := make([]am.Arg, 0, 8+len(extra))
 	if spec.Once {
 		opts = append(opts, am.FuncOnce())
 	}
 	opts = append(opts, extra...)
+	if w.NextDefaults != nil {
+		// the caller wants exactly this slice (which it may share with other
+		// functions) to be passed as the variadic default options
+		opts = w.NextDefaults
+		w.NextDefaults = nil
+	}
 	tag := fmt.Sprintf("c%d", fi)
 	if fi < 0 {
 		tag = fmt.Sprintf("m%d", -fi)
@@ -651,6 +677,9 @@ type Inst struct {
 	ConvArgs []am.Arg
 	// InputIDs of the most recent InputArgs call.
 	InputIDs []int64
+	// ZeroInput1, when > 0, makes input ZeroInput1-1 the zero value of its
+	// type (id 0) in every InputArgs call.
+	ZeroInput1 int
 }
 
 var errDupType = errors.New("two generated functions share a Go type")
@@ -716,7 +745,12 @@ func (in *Inst) InputArgs(call int) []am.Arg {
 	args := make([]am.Arg, 0, len(in.S.Inputs))
 	in.InputIDs = in.InputIDs[:0]
 	for i, l := range in.S.Inputs {
-		id := in.W.FreshInput(call, i, l)
+		var id int64
+		if in.ZeroInput1 == i+1 {
+			in.W.SetZeroInput(i, l)
+		} else {
+			id = in.W.FreshInput(call, i, l)
+		}
 		in.InputIDs = append(in.InputIDs, id)
 		args = append(args, InputArg(l, id))
 	}
